@@ -12,7 +12,7 @@ MECH = ("The end-to-end sentence of the property is a statement about two runs o
         "contracts that pin it down (each clause tagged with this property id in specs/*.vspec). ")
 LANGS7 = "all seven languages (en, fr, es, pt, it, de, nl)"
 TECH = "Verus function contracts on the real code, extracted mechanically from /repo on every run"
-DRV = ("COMPOSITION (spelling drivers, layer L3c), proved for English, Spanish and French: for EVERY n in [1, 10^12) the words of the standard spelling of n, "
+DRV = ("COMPOSITION (spelling drivers, layer L3c), proved for English, Spanish, French (every n in [1, 10^12)) and Portuguese (every n in [1, 10^6)): the words of the standard spelling of n, "
        "offered in order to the language's word model from a fresh builder, are all accepted (link words: and / y / et) and leave exactly the decimal digits of n "
        "(machine-checked induction over the four three-digit groups. English: every placement of 'and', space or hyphen between tens and units - the hyphenated "
        "word goes through the compound branch. Spanish: long scale 'mil millones', one-word forms up to veintinueve, apocopated un / veintiun, 'mil' without 'un'. "
@@ -28,7 +28,7 @@ CLAIMED = {
                 "performs exactly the place-value instruction the grammar prescribes (digits, guard, blocking flags), and a comma is never a number word; the "
                 "DigitString operations themselves have strongest-postcondition contracts (C12). For de/it/nl the splitter's pattern list in Default::default is "
                 "proved equal to the frozen list and every table word is proved not to be split. The error of a refused phrase is specified too (exec_group / text2digits, "
-                "both directions). " + DRV + "NOT proved: the composition for pt, it, de, nl (bounded evidence only); French with hyphens beyond the tens-units word (the 1990 all-hyphen spelling) and the glued compounds "
+                "both directions). " + DRV + "NOT proved: the composition for it, de, nl and for Portuguese from 10^6 up (bounded evidence only); French with hyphens beyond the tens-units word (the 1990 all-hyphen spelling) and the glued compounds "
                 "of de/nl/it beyond 'the group result is placed as a whole under the Overlap guard' (the daachorse automaton and str::split are assumed); the same phrase "
                 "found inside a sentence by the scanner (only the generic scanner theorems of C06/C07 apply). For interpreters that declare a word model (en, es, fr) exec_group and text2digits "
                 "have a functional contract: the result IS the fold of that model over the words (text2digits: over the lower-cased, whitespace-separated words, rendered by the language), "
@@ -79,13 +79,13 @@ CLAIMED = {
                 "as Incomplete; integer and fractional parts live in two builders; the rendered text is int + mark + frac through the language's "
                 "format_decimal_and_value (proved per language: exactly int ++ ',' (en: '.') ++ frac with every digit and leading zero of both parts, value exactly "
                 "parse_f64(int.frac)); DigitString::push appends verbatim; English and German apply_decimal are proved to be digit dictation. "
-                "COMPOSITION, proved for English, Spanish and French in two machine-checked halves: (a) generic in the language (unit scan, `drive_parser`): the real parser - new, push for "
+                "COMPOSITION, proved for English, Spanish, French and Portuguese (pt: integer and fraction below 10^6) in two machine-checked halves: (a) generic in the language (unit scan, `drive_parser`): the real parser - new, push for "
                 "every word of a stream in order, string_and_value - computes the parser fold of the language's word model and fraction-word model (for interpreters that declare such models; "
                 "push has a functional contract for them) and renders it as int, mark, frac when a separator was seen and fraction digits followed; (b) per language "
-                "(lemma_en_decimal, lemma_es_decimal, lemma_fr_decimal): for every z, every n below 10^12 and every fraction (English: any non-empty sequence of dictated digits; Spanish / French: "
+                "(lemma_en_decimal, lemma_es_decimal, lemma_fr_decimal, lemma_pt_decimal): for every z, every n below 10^12 and every fraction (English: any non-empty sequence of dictated digits; Spanish / French: "
                 "any number of zero words followed by the spelling of any m in [1, 10^12)), the parser fold over 'zeros spell(n) separator fraction' ends with the integer builder holding exactly "
-                "the zeros and the digits of n, the fraction builder holding exactly the fraction's digits with its leading zeros, and the separator seen. The decimal round trip for these three "
-                "languages is the substitution of (b) into (a). NOT proved: that substitution inside one verifier query (the two halves live in different units); pt, it, de, nl (bounded evidence only); "
+                "the zeros and the digits of n, the fraction builder holding exactly the fraction's digits with its leading zeros, and the separator seen. The decimal round trip for these "
+                "languages is the substitution of (b) into (a). NOT proved: that substitution inside one verifier query (the two halves live in different units); it, de, nl (bounded evidence only); "
                 "the same phrase found inside a sentence by the scanner.",
         "note": TRUST + MECH + "f64 values are defined as parse_f64 of the rendered digits (assumed). The per-language lemmas write the interpreter's spec methods (word_res, dec_res, decsep_spec) out as "
                 "their defining functions (en_word_res, ...): a spec closure that captures the interpreter value upsets an unrelated obligation in this Verus version.",
@@ -186,12 +186,12 @@ CLAIMED = {
     "C16": {
         "text": "DigitString::put accepts '0' exactly on an empty value and counts it in leading_zeroes; to_string prepends exactly that many zeros; len/is_empty "
                 "include them (exact contracts, C12); for " + LANGS7 + " the zero word and every guard that inspects the number so far are proved against grammar "
-                "rows that are stated over values with leading zeros (found and fixed: Italian 'un milione' after a zero). COMPOSITION, proved for English, Spanish and French: "
-                "for every z >= 0 and every n in [1, 10^12), z zero words followed by the spelling of n are accepted as ONE number whose builder holds exactly z leading zeros and the digits of n, "
+                "rows that are stated over values with leading zeros (found and fixed: Italian 'un milione' after a zero). COMPOSITION, proved for English, Spanish, French (n below 10^12) and Portuguese (n below 10^6): "
+                "for every z >= 0 and every n in range, z zero words followed by the spelling of n are accepted as ONE number whose builder holds exactly z leading zeros and the digits of n, "
                 "and the text is z zeros followed by those digits (spelling drivers, see C01); a zero word after a non-zero number is refused outright (pair theorem of C08, en/es). "
-                "NOT proved: the composition for pt, it, de, nl (bounded evidence only).",
+                "NOT proved: the composition for it, de, nl and Portuguese from 10^6 up (bounded evidence only).",
         "note": TRUST + MECH,
-        "design_ref": "DESIGN.md §12.3 C16",
+        "design_ref": "DESIGN.md §12.3 C16, §13",
     },
     "C17": {
         "text": "Proved: the tokenizer cuts maximal runs (a word token is a maximal run of word characters, a separator token a maximal run of non-alphanumerics), "
